@@ -112,14 +112,17 @@ def write_tlv(data: dict):
         pos = 0
 
         # A tag with length > 255 is added multiple times and concatenated into
-        # one buffer when reading the TLV again.
-        while pos < len(value):
+        # one buffer when reading the TLV again. An empty value is still written
+        # (as tag followed by length zero).
+        while True:
             size = min(length, 255)
             tlv += tag
             tlv += bytes([size])
             tlv += value[pos : pos + size]
             pos += size
             length -= size
+            if pos >= len(value):
+                break
     return tlv
 
 
